@@ -48,6 +48,10 @@ func replPool() []string {
 		model.KwPrint + " " + model.BiInput + ";", // a built-in printed (no call)
 		"# @ # @ # @ # @ # @ # @ # @",             // a line with many lexical errors
 		"1 +; 2 +; ) ) ) ; ; ;",                   // a line with a syntax error followed by more garbage
+		// loops without a condition: one that fails inside, one that fails before its guarded break, one that ends
+		model.KwFor + " (;;) { " + model.KwPrint + " 1 / 0; }",
+		model.KwVar + " n = 0; " + model.KwFor + " (;; n = n + 1) { " + model.KwIf + " (n > 2) { " + model.KwBreak + "; } zz; }",
+		model.KwFor + " (;;) { " + model.KwPrint + " 7; " + model.KwBreak + "; }",
 		// a runtime error at the bottom of a thousand nested calls, and deep recursions that succeed
 		model.KwFun + " df(n) { " + model.KwIf + " (n > 0) { " + model.KwReturn + " df(n - 1); } " + model.KwReturn + " 1 / 0; } df(1000);",
 		model.KwFun + " dg(n) { " + model.KwIf + " (n > 0) { " + model.KwReturn + " dg(n - 1) + 1; } " + model.KwReturn + " 0; } dg(999);",
